@@ -157,7 +157,7 @@ def gen_dep_tx(rng, pool):
 
 
 def gen_program(rng, *, npos=None, nmeth=(2, 7), dep=0.0, kinds=("leaf",), kw=0.0, hier=None,
-                prio=(0, 0, 0, 1, -1), repeat=0.15, other_arity=0.1, extras=("MyInt", "int"), catchall=0.4):
+                prio=(0, 0, 0, 1, -1), repeat=0.15, other_arity=0.1, extras=("MyInt", "int"), catchall=0.4, p_strict=0.15):
     hier = hier if hier is not None else gen_hierarchy(rng, rng.randint(2, 5), attrs=False)
     pool = [s["name"] for s in hier] + ["object"] + list(extras)
     npos = npos or rng.choice([1, 1, 2, 2, 3])
@@ -186,7 +186,29 @@ def gen_program(rng, *, npos=None, nmeth=(2, 7), dep=0.0, kinds=("leaf",), kw=0.
     if rng.random() < catchall:
         methods.append({"mid": len(methods), "pos": [{"n": f"a{j}", "t": "object"} for j in range(npos)], "kw": [],
                         "prio": rng.choice([0, 0, -1]), "kind": "leaf"})
+    strict_first(rng, methods, p_strict)
     return {"hier": hier, "methods": methods, "npos": npos}
+
+
+def strict_first(rng, methods, p=0.15):
+    """With probability p make the first position *strictly positional* - positional-only, or named differently by
+    different methods - while later positions stay ordinary: the generated entry point then assembles its lookup
+    key from two separate groups of parameters.  (Methods with fewer than two positions are left alone for the
+    differing-names variant, which would otherwise change which positions are keyword-addressable for delegation
+    bodies; delegating bodies always pass positionals positionally, so they are unaffected.)"""
+    if rng.random() >= p or not methods:
+        return None
+    mode = rng.choice(["posonly", "names"])
+    for i, m in enumerate(methods):
+        if not m["pos"]:
+            continue
+        first = dict(m["pos"][0])
+        if mode == "posonly":
+            first["po"] = True
+        else:
+            first["n"] = f"a0{'xy'[i % 2]}"
+        m["pos"] = [first] + m["pos"][1:]
+    return mode
 
 
 class CallGen:
